@@ -611,7 +611,10 @@ class PseudoNetCDFFile(PseudoNetCDFSelfReg, object):
         ddimevals = np.diff(dimevals)
 
         if (ddimevals < 0).all():
-            dimevals[::-1]
+            # np.interp needs increasing x values: reverse the coordinate
+            # (edges and centres) together with the indices
+            dimevals = dimevals[::-1]
+            dimvals = dimvals[::-1]
             idx = idx[::-1]
         elif (ddimevals > 0).all():
             pass
